@@ -47,6 +47,9 @@ class Stats:
         return d
 
 
+PATH_START_HOOKS = []      # callables run at the start of every root path (loader: restore module-level state of the code under test)
+
+
 class Explorer:
     """Depth-first exploration of the feasible paths of `fn` by re-execution under a recorded prefix."""
 
@@ -177,6 +180,9 @@ class Explorer:
                 if self._own_shared:
                     self.shared.clear()
                 CUR = self
+                if prev is None:      # a new root path starts from the state of a fresh process
+                    for hook in list(PATH_START_HOOKS):
+                        hook()
                 try:
                     fn(self)
                     n += 1
